@@ -206,6 +206,10 @@ impl Stage for C01 {
     }
 }
 
+pub fn replay(rep: &Report, _stage: &str, j: &serde_json::Value) -> i32 {
+    crate::registry::replay_stage(rep, &C01 { cfg: GenCfg::default(), pairs_per_prefix: 5 }, j)
+}
+
 pub fn run(rep: &Report) {
     rep.set_rule(
         "cases = typed monotone egglog histories (constructors, relations, lattice functions, rules, rewrites, unions, schedules) decoded from proptest byte strings; \
